@@ -141,7 +141,7 @@ PROPS["C18"] = {
 
 _E2E_RULE = "generated repositories written as REAL git repositories (3-20 objects quick, up to 60 thorough; layouts loose / repack -ad / gc / pack with a reachability bitmap below the walked roots / alternates / partial-clone (.promisor) packs; references packed or loose, symbolic references, names with Unicode spaces, ~3-KiB names and one at the path limit (~4 046 bytes), tags shadowing another namespace, repositories without references, HEAD detached at an unreferenced commit; the empty blob and tree, entry names with newline / leading dash / 8-14 KiB, commits above 1 MiB, breadth-2 bombs 35-45 levels deep, one 65 536-entry directory per 160 cases; commit dates random, all equal, or children older than parents; noise objects unreachable from the roots) x root selections (all refs, --branches/--tags/--no-tags, ROOT arguments as full and abbreviated ids, reference names, X^{tree}, X:, X:name, X~1, tag^{}, :/text; one case in forty a ROOT that must be refused: X^@ / X^!) x name styles; scanned by the real git-sizer binary; non-trivial = git-sizer produced a report (every case is a distinct repository)."
 PROPS["C08"] = {
-    "level_text": "Theorems: (1) over the regenerated recordBlob: for every sequence of blobs the cited blob was recorded and attains the reported maximum. (2) `descriptions_resolve`: sizes/path_resolver.go is modelled statement by statement (arena of Path objects, soughtPaths, RequestPath/ForgetPath/RecordName/RecordTreeEntry/RecordCommit, Path(), TreePrefix(), revision(), rootTreePrefix()); for EVERY repository and EVERY operation sequence consistent with it (any number and order of requests and forgets; tree entries, commit trees and root names reported in any order) every Path.String() is the object id alone or the object id followed by an expression that git's revision syntax (Spec/RevParse: top-level ':' scan, ^{type} peeling incl. git's prefix match, path walking) resolves to exactly that object; the 'parent unexpectedly filled in' panics are unreachable. Correspondence: the real InOrderPathResolver driven in-process (paths engine) vs the model, every printed description judged by the specification; the specification itself is validated against the real `git rev-parse --verify` (revspec engine). Judge (graph + e2e engines): every cited object of all 12 witness slots is reachable from the chosen roots, has the right kind and attains the reported value; every printed description resolves with the real git to exactly the cited id; --names=none cites nothing. `scan_descriptions_resolve`: the facts a scan reports to the resolver (entries of listed trees except submodule links, commit trees, walked roots' names) satisfy the consistency hypothesis for every fsck-clean repository (`RepoOK`), so the theorem applies to whole scans.",
+    "level_text": "Theorems: (1) over the regenerated recordBlob: for every sequence of blobs the cited blob was recorded and attains the reported maximum. (2) `descriptions_resolve`: sizes/path_resolver.go is modelled statement by statement (arena of Path objects, soughtPaths, RequestPath/ForgetPath/RecordName/RecordTreeEntry/RecordCommit, Path(), TreePrefix(), revision(), rootTreePrefix()); for EVERY repository and EVERY operation sequence consistent with it (any number and order of requests and forgets; tree entries, commit trees and root names reported in any order) every Path.String() is the object id alone or the object id followed by an expression that git's revision syntax (Spec/RevParse: top-level ':' scan, ^{type} peeling incl. git's prefix match, path walking) resolves to exactly that object; the 'parent unexpectedly filled in' panics are unreachable. Correspondence: the real InOrderPathResolver driven in-process (paths engine) vs the model, every printed description judged by the specification; the specification itself is validated against the real `git rev-parse --verify` (revspec engine). Judge (graph + e2e engines): every cited object of all 12 witness slots is reachable from the chosen roots, has the right kind and attains the reported value; every printed description resolves with the real git to exactly the cited id; --names=none cites nothing. `scan_descriptions_resolve`: the facts a scan reports to the resolver (entries of listed trees except submodule links, commit trees, walked roots' names) satisfy the consistency hypothesis for every fsck-clean repository (`RepoOK`), so the theorem applies to whole scans. `names_none_cites_nothing` (regenerated statements): for NameStyleNone the graph's resolver is NullPathResolver{false}, whose RequestPath returns nil; witness fields are assigned only by setPath from RequestPath; both renderers skip an item whose path is nil.",
     "level_note": "Trusted: Lean kernel; the model of path_resolver.go (tied by the paths engine, differential); Spec/RevParse as a description of git 2.39's rev-parse for the fragment (tied by the revspec engine, differential) with the explicit hypotheses `EnvOK` (git's basic name resolution accepts no string with a top-level ':'; object ids are hex and resolve to their objects; a commit's tree is a tree), shown satisfiable on a concrete repository (`wEnv_ok`). That graph.go reports only true tree entries / commit trees / git-resolved names is the operation precondition `OpOK` (exercised end to end by e2e, not proved of graph.go). One recorded finding (F18: JSON cannot carry non-UTF-8 descriptions).",
     "technique": "Lean 4 proof (invariant over all operation sequences of the path-resolver model; witness invariant over the regenerated record function) + differential correspondence + end-to-end exploration with git rev-parse as oracle",
     "modules": ["GitSizer.Props.C08"],
